@@ -104,7 +104,7 @@ func genOp(t *rapid.T, cfg C07Config) Op {
 		k string
 		w int
 	}
-	kinds := []wk{{"mine", 4}, {"pay", 4}, {"fund", 11}, {"release", 2}, {"submit", 6}, {"redist", 2}, {"split", 2}, {"reorg", 1}, {"restart", 2}, {"sync", 2}}
+	kinds := []wk{{"mine", 4}, {"pay", 4}, {"fund", 11}, {"release", 2}, {"submit", 6}, {"redist", 2}, {"split", 2}, {"reorg", 1}, {"restart", 2}, {"sync", 2}, {"topup", 2}}
 	if cfg.ShortReservation {
 		kinds = append(kinds, wk{"expire", 2})
 	}
@@ -148,6 +148,10 @@ func genOp(t *rapid.T, cfg C07Config) Op {
 		}
 	case "release":
 		op.N = rapid.IntRange(0, 7).Draw(t, "request")
+	case "topup":
+		op.N = rapid.IntRange(0, 7).Draw(t, "request")
+		op.F = rapid.IntRange(1, 999).Draw(t, "permille")
+		op.U = rapid.IntRange(0, 3).Draw(t, "use-unconfirmed") == 0
 	case "submit":
 		op.N = rapid.IntRange(0, 7).Draw(t, "request")
 		op.B = rapid.IntRange(0, 2).Draw(t, "path")
@@ -1473,6 +1477,170 @@ func (wd *world) release(r *request) {
 	}
 }
 
+// opTopUp funds an already funded, still outstanding v1/v2 request a second
+// time (as integrators do to add a fee or another payee): the transaction then
+// already carries inputs of the wallet, which count towards the defrag limit
+// and are reserved.
+func (wd *world) opTopUp(op Op, step int) error {
+	var cands []*request
+	storeTip, _ := wd.ws.Tip()
+	now := time.Now()
+	for _, r := range wd.outstanding(true) {
+		// only requests whose reservation is certainly still in force (not lost
+		// by a restart or expired): otherwise the wallet may legitimately offer
+		// one of the transaction's own inputs again
+		reserved := true
+		for _, id := range r.ids {
+			if wd.lockState(id, now, now.Add(20*time.Millisecond)) != lockYes {
+				reserved = false
+			}
+		}
+		if reserved && (r.kind == "v1" || (r.kind == "v2" && len(r.v2) == 1 && r.basis == storeTip)) {
+			cands = append(cands, r)
+		}
+	}
+	if len(cands) == 0 {
+		wd.cs.Class("topup=nothing-suitable")
+		return nil
+	}
+	r := cands[modInt(op.N, len(cands))]
+	where := fmt.Sprintf("step %d top-up of request #%d (%s, useUnconfirmed=%v)", step, r.id, r.kind, op.U)
+	pre, err := wd.view(time.Now(), time.Now())
+	if err != nil {
+		return err
+	}
+	base := pre.sumS
+	if op.U {
+		base = base.Add(pre.sumE)
+	}
+	amount := base.Mul64(uint64(clampInt(op.F, 1, 999))).Div64(4000)
+	if amount.IsZero() {
+		amount = oneH
+	}
+	tB := time.Now()
+	before, _, err := wd.spendable()
+	if err != nil {
+		return fmt.Errorf("%s: %w", where, err)
+	}
+	held := map[scID]bool{}
+	for _, id := range r.ids {
+		held[id] = true
+	}
+	var newIDs []scID
+	var changeOuts []types.SiacoinOutput
+	var callErr error
+	var t0, t1 time.Time
+	if r.kind == "v1" {
+		txn := r.v1
+		txn.SiacoinInputs = append([]types.SiacoinInput(nil), r.v1.SiacoinInputs...)
+		txn.SiacoinOutputs = append(append([]types.SiacoinOutput(nil), r.v1.SiacoinOutputs...), types.SiacoinOutput{Address: wd.other, Value: amount})
+		nIn, nOut := len(txn.SiacoinInputs), len(txn.SiacoinOutputs)
+		t0 = time.Now()
+		toSign, err := wd.w.FundTransaction(&txn, amount, op.U)
+		t1 = time.Now()
+		callErr = err
+		if err == nil {
+			if len(toSign) != len(txn.SiacoinInputs)-nIn {
+				return fmt.Errorf("%s: %d inputs added, %d ids to sign", where, len(txn.SiacoinInputs)-nIn, len(toSign))
+			}
+			for _, in := range txn.SiacoinInputs[nIn:] {
+				newIDs = append(newIDs, in.ParentID)
+			}
+			changeOuts = txn.SiacoinOutputs[nOut:]
+			r.v1 = txn
+			r.toSignV1 = append(r.toSignV1, toSign...)
+		}
+	} else {
+		txn := r.v2[0].DeepCopy()
+		txn.SiacoinOutputs = append(txn.SiacoinOutputs, types.SiacoinOutput{Address: wd.other, Value: amount})
+		nIn, nOut := len(txn.SiacoinInputs), len(txn.SiacoinOutputs)
+		t0 = time.Now()
+		basis, toSign, err := wd.w.FundV2Transaction(&txn, amount, op.U)
+		t1 = time.Now()
+		callErr = err
+		if err == nil {
+			if basis != r.basis {
+				return fmt.Errorf("%s: second funding returned basis %v, the first %v, the store did not move", where, basis, r.basis)
+			}
+			for i, idx := range toSign {
+				if idx != nIn+i {
+					return fmt.Errorf("%s: toSign[%d] = %d, want %d", where, i, idx, nIn+i)
+				}
+			}
+			if len(toSign) != len(txn.SiacoinInputs)-nIn {
+				return fmt.Errorf("%s: %d inputs added, %d indices to sign", where, len(txn.SiacoinInputs)-nIn, len(toSign))
+			}
+			if len(txn.SiacoinInputs) > nIn {
+				if err := wd.checkBasis(where, basis, []types.V2Transaction{{SiacoinInputs: txn.SiacoinInputs[nIn:]}}); err != nil {
+					return err
+				}
+			}
+			for _, in := range txn.SiacoinInputs[nIn:] {
+				newIDs = append(newIDs, in.Parent.ID)
+			}
+			changeOuts = txn.SiacoinOutputs[nOut:]
+			r.v2[0] = txn
+			r.toSignV2[0] = append(r.toSignV2[0], toSign...)
+		}
+	}
+	v, err := wd.view(t0, t1)
+	if err != nil {
+		return err
+	}
+	if callErr != nil {
+		wd.cs.Class("topup=error")
+		if !errors.Is(callErr, wallet.ErrNotEnoughFunds) {
+			return fmt.Errorf("%s: amount %v failed with %v", where, amount, callErr)
+		}
+		after, _, err := wd.spendable()
+		if err != nil {
+			return fmt.Errorf("%s: %w", where, err)
+		}
+		if t2 := time.Now(); !wd.anyUndecidable(before, after, tB, t2) {
+			if d := diffSets(after, before, v.snap, wd, t0, t2); d != "" {
+				return fmt.Errorf("%s: the call failed (%v) but SpendableOutputs changed: %s", where, callErr, d)
+			}
+		}
+		return nil
+	}
+	for i, id := range newIDs {
+		if !held[id] {
+			continue
+		}
+		if wd.lockState(id, t0, t1) == lockYes {
+			return fmt.Errorf("%s: added input %d (%v) is already an input of the same transaction and reserved by it", where, i, id)
+		}
+		// the earlier reservation ran out during the call (50 ms): the
+		// transaction is unusable by the integrator's own doing
+		wd.cs.Class("topup=own-input-offered-again-after-expiry")
+		r.ids = append(r.ids, newIDs...)
+		r.state = 3
+		wd.release(r)
+		return nil
+	}
+	sum, nUnconf, err := wd.checkSelected(v, newIDs, op.U, t0, t1, map[scID]bool{})
+	if err != nil {
+		return fmt.Errorf("%s: amount %v: %w", where, amount, err)
+	}
+	var change types.Currency
+	for _, o := range changeOuts {
+		if o.Address != wd.waddr {
+			return fmt.Errorf("%s: change output pays %v", where, o.Address)
+		}
+		change = change.Add(o.Value)
+	}
+	if !sum.Equals(amount.Add(change)) {
+		return fmt.Errorf("%s: Σ added inputs %v != amount %v + change %v", where, sum, amount, change)
+	}
+	wd.cs.Class("topup=ok-" + r.kind)
+	if nUnconf > 0 {
+		r.unconf = true
+	}
+	r.ids = append(r.ids, newIDs...)
+	wd.reserve(newIDs, t0, t1, r.id)
+	return nil
+}
+
 func (wd *world) opRelease(op Op) error {
 	out := wd.outstanding(false)
 	if len(out) == 0 {
@@ -2033,6 +2201,8 @@ func runC07(c C07Case, cs *kit.CaseStats) error {
 			}
 		case "release":
 			err = wd.opRelease(op)
+		case "topup":
+			err = wd.opTopUp(op, i)
 		case "submit":
 			err = wd.opSubmit(op, i)
 		case "redist":
